@@ -74,6 +74,9 @@ IMAGE = [T('dd.bdd._image', variant='image', args={'umap': 'dict:int->int', 'vma
 AWRAP = [T(ABD + 'add_var'), T(ABD + 'var_at_level'), T(ABD + 'level_of_var'), T(ABD + 'collect_garbage'), T(ABD + 'incref'), T(ABD + 'decref'),
          T(ABD + 'find_or_add')]
 
+SWAPV = [T(B + '_low_high'), T(B + '_swap_cofactor'), T(B + 'swap', B + 'swap!validation:levels', variant='levels', args={'x': 'int', 'y': 'int'}),
+         T(B + 'swap', B + 'swap!validation:names', variant='names', args={'x': 'name', 'y': 'name'})]
+
 TARGETS = {
     'C01': CORE + apply_targets(['not', 'and', 'or', 'xor', 'implies', 'equiv', 'diff', 'ite']) + AOPS
     + [T(ABD + 'ite')] + aapply_targets(['~', 'and', '\\/', '#', '=>', '<->', '-', 'ite']) + ARITY,
@@ -91,6 +94,7 @@ TARGETS = {
             T(B + 'let', B + 'let:name', variant='names', args={'definitions': 'dict:name->name'})],
     'C05': list(CP_.TARGETS),
     'C06': [T(B + 'incref'), T(B + 'decref'), T(B + 'ref'), T(B + 'find_or_add')] + GC,
+    'C07': SWAPV,
     'C08': HANDLES + [T(ABD + 'var'), T(ABD + 'ite'), T(ABD + 'quantify'), T(ABD + 'forall'), T(ABD + 'exist'), T(ABD + 'succ'),
                       T(AF + 'low'), T(AF + 'high')] + aapply_targets(['not', '&', 'ite', 'forall']) + AOPS[:7]
            + [T(B + '_init_terminal'), T(B + 'add_var')]   # declarations keep every count
@@ -108,6 +112,6 @@ TARGETS = {
     'C17': [T(B + 'find_or_add'), T(B + 'add_var'), T(B + '_check_var'), T(B + '_next_free_level'), T(B + 'var_at_level'),
             T(B + 'level_of_var'), T(B + 'var', B + 'var!body'), T('dd.bdd.rename'), T(B + '_next_free_int')]
     + apply_targets(['not', 'and', 'ite', 'forall']) + PLUMBING[1:]
-    + [T(AF + '__init__'), T(ABD + '_wrap'), T(ABD + '_add_int'), T(ABD + 'var'), T(ABD + 'ite'), T(ABD + 'quantify')] + aapply_targets(['!', '||', 'ite']) + ARITY + [T(ABD + '__contains__'), T(B + '_add_int')] + M2L,
+    + [T(AF + '__init__'), T(ABD + '_wrap'), T(ABD + '_add_int'), T(ABD + 'var'), T(ABD + 'ite'), T(ABD + 'quantify')] + aapply_targets(['!', '||', 'ite']) + ARITY + [T(ABD + '__contains__'), T(B + '_add_int')] + M2L + SWAPV[2:],
     'C18': [T(B + 'succ')] + AVIEWS + [T(B + '_descendants'), T(B + 'descendants')],
 }
